@@ -75,6 +75,32 @@ INST = Dom("Instance(A)", {"v1": A1, "v2": A2, "v3": None, "x1": 5,
            lambda x: x is None or isinstance(x, A))
 
 
+from traits.api import TraitType, Undefined  # noqa: E402
+
+#: Int again, with the library's own Undefined sentinel as the first
+#: invalid item (it turns up in user data as the `old` of a first change)
+INT_U = Dom("Int", {"v1": 1, "v2": 2, "c1": True, "x1": Undefined, "x2": "a"},
+            {"v1": 1, "v2": 2, "c1": 1}, lambda x: type(x) is int)
+
+
+class NonNeg(TraitType):
+    """a user trait type that reports bad values with a message-only
+    TraitError"""
+    default_value = 0
+
+    def validate(self, object, name, value):
+        if type(value) is bool:
+            return int(value)
+        if type(value) is int and value >= 0:
+            return value
+        raise TraitError("must be a non-negative int")
+
+
+NONNEG = Dom("NonNeg", {"v1": 1, "v2": 2, "c1": True, "x1": -1, "x2": "a"},
+             {"v1": 1, "v2": 2, "c1": 1},
+             lambda x: type(x) is int and x >= 0)
+
+
 def mk_listdom(name, inner, minlen, maxlen):
     """Domain of a nested List(inner, minlen, maxlen) item."""
     raw = {"v1": [inner.raw["v1"]], "v2": [inner.raw["v1"], inner.raw["v2"]],
@@ -176,6 +202,14 @@ CONFIGS = {
     "dict_cstr_list": dict(kind="dict", trait=lambda: Dict(CStr, List(Int)),
                            kdom=CSTR, vdom=INNER_L, nested="dictvalue"),
     "set_int": dict(kind="set", trait=lambda: Set(Int), dom=INT),
+    "list_int_undef": dict(kind="list", trait=lambda: List(Int, maxlen=2),
+                           dom=INT_U, minlen=0, maxlen=2),
+    "set_int_undef": dict(kind="set", trait=lambda: Set(Int), dom=INT_U),
+    "dict_str_int_undef": dict(kind="dict", trait=lambda: Dict(Str, Int),
+                               kdom=STR, vdom=INT_U),
+    "list_custom": dict(kind="list", trait=lambda: List(NonNeg, maxlen=2),
+                        dom=NONNEG, minlen=0, maxlen=2),
+    "set_custom": dict(kind="set", trait=lambda: Set(NonNeg), dom=NONNEG),
     "set_cint": dict(kind="set", trait=lambda: Set(CInt), dom=CINT),
 }
 
